@@ -21,7 +21,7 @@ import z3
 
 from pyvc import contract, prims
 from pyvc.contract import LoopSpec, Outcome, Spec
-from pyvc.engine import RaiseSig, Unsupported, as_z3_bool, bytes_num
+from pyvc.engine import ContractStale, RaiseSig, Unsupported, as_z3_bool, bytes_num
 from pyvc.ground import All
 from pyvc.values import (B, I, NONE, Obj, VBool, VBytes, VExc, VFunc, VInt, VNone, VOpaque, VRef,
                          VStr, VTuple, fresh_name)
@@ -30,6 +30,7 @@ from . import fsmodel as M
 from . import pack_gc as G
 from .common import KeyError_, OSError_, POSKeyError, inst
 from .pack_swap import DATA, PACK
+from .fs_write import rope_at
 
 FSP = 'ZODB.FileStorage.fspack'
 PK = FSP + ':FileStoragePacker'
@@ -225,8 +226,351 @@ class CopierCopy(FrameOnly):
     func = FSP + ':PackCopier.copy'
 
 
+class ResolveBackpointer(PackerSpec):
+    """PackCopier._resolve_backpointer as copy() sees it: 0 or a record position of the OUTPUT file; the
+    output file is left positioned where it was (the code saves and restores the position) - ASSUMED
+    (its loops _txn_find/_data_find walk the output file backwards)"""
+    func = FSP + ':PackCopier._resolve_backpointer'
+    props = ()
+    verify = False
+
+    def requires(self, c, E):
+        return []
+
+    def outcomes(self, c, E):
+        def mk(cc, E):
+            p = cc.fresh_int('prev_pos')
+            cc.assume(z3.And(p.t >= 0, p.t < M.MAXPOS))
+            return p
+        return [Outcome('resolved', result=mk), Outcome('bad-hint', 'raise', PackError),
+                Outcome('corrupt', 'raise', M.CorruptedError)]
+
+
+class CopierCopyBody(Spec):
+    """PackCopier.copy (the real body; call sites use the frame contract CopierCopy): appends exactly one
+    data record to the output file - header (oid, serial, prev = position of the object's previous record
+    in the OUTPUT file or 0, tloc = the output transaction, plen) followed by the data, or by a back pointer
+    / z64 when there is none - and ALWAYS files the record's position in the transaction index, also for an
+    un-creation (the index FileStorage.pack installs must say that the object is gone)"""
+    func = FSP + ':PackCopier.copy'
+    props = ('C07',)
+    callable_contract = False
+    label = 'body'
+    cases = ('data', 'no-data')
+    assumptions = ('PackCopier._resolve_backpointer: assumed contract (returns 0 or a position, restores the file position)',)
+
+    def setup(self, c, case=None):
+        f = prims.new_file(c, 'packfile_out', mode='w+b')
+        fo = c.obj(f).f
+        c.assume(z3.And(fo['pos'] >= 0, fo['size'] < M.MAXPOS, fo['pos'] <= fo['size']))
+        index = prims.new_map(c, 'bytes8', 'int', 'pack_index', sorted_=True, cls='ZODB.fsIndex:fsIndex')
+        tindex = prims.new_map(c, 'bytes8', 'int', 'pack_tindex')
+        for m_ in (index, tindex):
+            c.roles.array(c.obj(m_).f['dom'], 'oid')
+            c.roles.array(c.obj(m_).f['val'], 'oid')
+        c.roles.array(fo['arr'], 'byte')
+        me = inst(c, FSP + ':PackCopier', _file=f, _index=index, _tindex=tindex, _pos=c.fresh_int('_pos'))
+        c.ghost['copier'] = (me, f, index, tindex)
+        txnpos, datapos = c.fresh_int('txnpos'), c.fresh_int('datapos')
+        c.assume(z3.And(txnpos.t >= 0, txnpos.t < 2 ** 63, datapos.t >= 0, datapos.t < 2 ** 63))
+        data = c.fresh_barr('data') if case == 'data' else NONE
+        if case == 'data':
+            c.assume(data.length() < M.MAXPOS)        # machine range of a record length
+        return {'self': me, 'oid': c.fresh_bytes(8, 'oid'), 'serial': c.fresh_bytes(8, 'serial'),
+                'data': data,
+                'prev_txn': c.fresh_bytes(8, 'prev_txn') if case == 'no-data' else NONE,
+                'txnpos': txnpos, 'datapos': datapos}
+
+    def requires(self, c, E):
+        me, f, index, tindex = c.ghost['copier']
+        ix = c.obj(index).f
+        return [('index-positions-are-positions', All(['oid'], lambda q: z3.Implies(
+            z3.Select(ix['dom'], q), z3.And(z3.Select(ix['val'], q) >= 0,
+                                            z3.Select(ix['val'], q) < 2 ** 63))))]
+
+    def modifies(self, c, E):
+        me, f, index, tindex = c.ghost['copier']
+        return {(f.id, 'arr'), (f.id, 'size'), (f.id, 'pos'), (f.id, 'dirty'), (f.id, 'unsynced'),
+                (tindex.id, 'dom'), (tindex.id, 'val')}
+
+    def outcomes(self, c, E):
+        me, f, index, tindex = c.ghost['copier']
+        fo0 = dict(c.obj(f).f)
+        t0 = fo0['pos']
+        o = bytes_num(c, E['oid'])
+        ix = c.obj(index).f
+        old = z3.If(z3.Select(ix['dom'], o), z3.Select(ix['val'], o), 0)
+        ti0 = dict(c.obj(tindex).f)
+        data = E['data']
+
+        def post(cc, E, res):
+            from .fsmodel import rec
+            fo = cc.obj(f).f
+            ti = cc.obj(tindex).f
+            r = rec(fo['arr'], t0)
+            out = [
+                ('record.oid', r['oid'] == o),
+                ('record.tid', r['tid'] == bytes_num(cc, E['serial'])),
+                ('record.prev-is-the-previous-record-in-the-output-file', r['prev'] == old),
+                ('record.tloc-is-the-output-transaction', r['tloc'] == E['txnpos'].t),
+                ('record.vlen-zero', r['vlen'] == 0),
+                ('earlier-bytes-unchanged', All(['byte'], lambda k: z3.Implies(
+                    z3.And(k >= 0, k < t0), z3.Select(fo['arr'], k) == z3.Select(fo0['arr'], k)))),
+                ('transaction-index.entry-ALWAYS-filed', z3.And(z3.Select(ti['dom'], o),
+                                                               z3.Select(ti['val'], o) == E['datapos'].t)),
+                ('transaction-index.others-unchanged', All(['oid'], lambda q: z3.Implies(
+                    q != o, z3.And(z3.Select(ti['dom'], q) == z3.Select(ti0['dom'], q),
+                                   z3.Select(ti['val'], q) == z3.Select(ti0['val'], q))))),
+            ]
+            if isinstance(data, VBytes):
+                dl = data.length()
+                # (prev_pos found: a back pointer is written instead of the data)
+                out.append(('record.length', z3.Or(
+                    z3.And(r['plen'] == dl, fo['pos'] == t0 + 42 + dl),
+                    z3.And(r['plen'] == 0, fo['pos'] == t0 + 50))))
+            else:
+                out.append(('record.no-data-then-8-byte-pointer', z3.And(r['plen'] == 0,
+                                                                         fo['pos'] == t0 + 50)))
+            return out
+        return [Outcome('copied', result=lambda cc, E: NONE, post=post),
+                Outcome('bad-hint', 'raise', PackError),
+                Outcome('corrupt', 'raise', M.CorruptedError),
+                Outcome('io-error', 'raise', OSError_)]
+
+
+class WritePackedDataRecord(Spec):
+    """FileStoragePacker.writePackedDataRecord (records of transactions up to the pack time): appends the
+    record with its data RESOLVED (no back pointer, no previous-record pointer), tloc = the output
+    transaction, the object's tid unchanged, an 8-byte zero pointer after a record without data; files the
+    record's position in the packer's index"""
+    func = PK + '.writePackedDataRecord'
+    props = ('C07',)
+    cases = ('data', 'no-data')
+
+    def setup(self, c, case=None):
+        f = prims.new_file(c, 'packfile_out', mode='w+b')
+        fo = c.obj(f).f
+        c.assume(z3.And(fo['pos'] >= 0, fo['size'] < M.MAXPOS, fo['pos'] <= fo['size']))
+        index = prims.new_map(c, 'bytes8', 'int', 'pack_index', sorted_=True, cls='ZODB.fsIndex:fsIndex')
+        c.roles.array(c.obj(index).f['dom'], 'oid')
+        c.roles.array(c.obj(index).f['val'], 'oid')
+        c.roles.array(fo['arr'], 'byte')
+        me = inst(c, PK, _tfile=f, index=index)
+        h = inst(c, M.DH, oid=c.fresh_bytes(8, 'h_oid'), tid=c.fresh_bytes(8, 'h_tid'),
+                 prev=c.fresh_int('h_prev'), tloc=c.fresh_int('h_tloc'), plen=c.fresh_int('h_plen'),
+                 back=c.fresh_int('h_back'))
+        data = c.fresh_barr('data') if case == 'data' else NONE
+        if case == 'data':
+            c.assume(data.length() < M.MAXPOS)
+        new_tpos = c.fresh_int('new_tpos')
+        c.assume(z3.And(new_tpos.t >= 0, new_tpos.t < 2 ** 63))
+        c.ghost['wp'] = (me, f, index, h)
+        return {'self': me, 'h': h, 'data': data, 'new_tpos': new_tpos}
+
+    def modifies(self, c, E):
+        me, f, index, h = c.ghost['wp']
+        return {(f.id, 'arr'), (f.id, 'size'), (f.id, 'pos'), (f.id, 'dirty'), (f.id, 'unsynced'),
+                (index.id, 'dom'), (index.id, 'val'), (h.id, 'prev'), (h.id, 'back'), (h.id, 'plen'),
+                (h.id, 'tloc')}
+
+    def outcomes(self, c, E):
+        me, f, index, h = c.ghost['wp']
+        fo0 = dict(c.obj(f).f)
+        t0 = fo0['pos']
+        h0 = dict(c.obj(h).f)
+        o = bytes_num(c, h0['oid'])
+        ix0 = dict(c.obj(index).f)
+        data = E['data']
+        dl = data.length() if isinstance(data, VBytes) else z3.IntVal(0)
+
+        def post(cc, E, res):
+            from .fsmodel import rec
+            fo = cc.obj(f).f
+            ix = cc.obj(index).f
+            r = rec(fo['arr'], t0)
+            return [
+                ('record.oid', r['oid'] == o),
+                ('record.tid-unchanged', r['tid'] == bytes_num(cc, h0['tid'])),
+                ('record.no-previous-record-pointer', r['prev'] == 0),
+                ('record.tloc-is-the-output-transaction', r['tloc'] == E['new_tpos'].t),
+                ('record.vlen-zero', r['vlen'] == 0),
+                ('record.plen-is-the-resolved-data-length', r['plen'] == dl),
+                ('record.end', fo['pos'] == t0 + 42 + z3.If(dl == 0, 8, dl)),
+                ('record.zero-pointer-after-a-record-without-data', z3.Implies(
+                    dl == 0, z3.And([z3.Select(fo['arr'], t0 + 42 + k) == 0 for k in range(8)]))),
+                ('earlier-bytes-unchanged', All(['byte'], lambda k: z3.Implies(
+                    z3.And(k >= 0, k < t0), z3.Select(fo['arr'], k) == z3.Select(fo0['arr'], k)))),
+                ('index.entry', z3.And(z3.Select(ix['dom'], o), z3.Select(ix['val'], o) == t0)),
+                ('index.others-unchanged', All(['oid'], lambda q: z3.Implies(
+                    q != o, z3.And(z3.Select(ix['dom'], q) == z3.Select(ix0['dom'], q),
+                                   z3.Select(ix['val'], q) == z3.Select(ix0['val'], q))))),
+            ] + ([('record.data', All(['byte'], lambda k: z3.Implies(
+                z3.And(k >= 0, k < dl), z3.Select(fo['arr'], t0 + 42 + k) == rope_at(data, k))))]
+                 if isinstance(data, VBytes) else [])
+        return [Outcome('written', result=lambda cc, E: NONE, post=post),
+                Outcome('io-error', 'raise', OSError_)]
+
+
+class CopyDataRecords(PackerSpec):
+    """FileStoragePacker.copyDataRecords (one transaction up to the pack time, no blob directory): EXACTLY
+    the records the reachability pass keeps (GC.isReachable) are handed to writePackedDataRecord, in file
+    order, after the transaction header has been written once with status 'p'; returns (position of that
+    header in the output or 0 if nothing was kept, end of the input transaction's records)"""
+    func = PK + '.copyDataRecords'
+    props = ('C07',)
+
+    def setup(self, c, case=None):
+        w = mk_packer(c, locked=False)
+        g = w.gcw
+        T = w.lt.T
+        pos = c.fresh_int('pos')
+        c.ghost['env_lo'] = pos.t
+        c.ghost['written'] = z3.K(I, z3.BoolVal(False))
+        th = inst(c, M.TH, tid=c.fresh_bytes(8, 'th_tid'), tlen=VInt(T.tl(pos.t)),
+                  status=VStr(codes=[T.status(pos.t)]), ulen=VInt(T.ul(pos.t)), dlen=VInt(T.dl(pos.t)),
+                  elen=VInt(T.el(pos.t)), user=c.fresh_barr('user'), descr=c.fresh_barr('descr'),
+                  ext=c.fresh_barr('ext'))
+        c.assume(z3.And(c.obj(th).f['user'].length() == T.ul(pos.t), c.obj(th).f['descr'].length() == T.dl(pos.t),
+                        c.obj(th).f['ext'].length() == T.el(pos.t), T.ul(pos.t) <= 65535, T.dl(pos.t) <= 65535,
+                        T.el(pos.t) <= 65535, T.tl(pos.t) < 2 ** 63))
+        w.th = th
+        return {'self': w.self, 'pos': pos, 'th': th}
+
+    def requires(self, c, E):
+        w = self.w(c, E)
+        g = w.gcw
+        pos = E['pos'].t
+        w.lt.T.link(c, pos)
+        return G.gc_ri(c, g)[:2] + G.later_clauses(g, w.lt, lo=pos, eof=g.pp) + [
+            ('at-a-transaction-before-the-pack-position', z3.And(pos >= 4, pos < g.pp, g.pp <= dsize(c, w))),
+            ('output-position-past-the-file-magic', c.obj(w.tfile).f['pos'] >= 4)]
+
+    def hooks(self, c):
+        hk = PackerSpec.hooks(self, c)
+
+        def wp(cc, args, kwargs, node):
+            # ghost: which input record this call writes (the header object was read at that position)
+            w = cc.ghost['packer']
+            h = args[1]
+            cc.ghost['last_written_header'] = h
+            spec = cc.interp.reg.specs[PK + '.writePackedDataRecord']
+            cc.event('write-packed', h.id if isinstance(h, VRef) else None, args[3] if len(args) > 3 else None)
+            # effect on the output file as in its own contract (WritePackedDataRecord): appended
+            to = cc.obj(w.tfile).f
+            newpos = z3.Int(fresh_name('pack_pos'))
+            cc.assume(newpos >= to['pos'] + 50)
+            to['arr'] = z3.Array(fresh_name('pack_img'), I, I)
+            to['pos'] = newpos
+            to['size'] = z3.Int(fresh_name('pack_size'))
+            cc.assume(to['size'] >= newpos)
+            o = cc.obj(w.index)
+            o.f['dom'] = z3.Array(fresh_name('pidx_dom'), I, B)
+            o.f['val'] = z3.Array(fresh_name('pidx_val'), I, I)
+            return NONE
+        hk['call:' + PK + '.writePackedDataRecord'] = wp
+        return hk
+
+    def modifies(self, c, E):
+        w = self.w(c, E)
+        th = E['th']
+        return {(w.tfile.id, '*'), (w.pf.id, 'pos'), (w.index.id, 'dom'), (w.index.id, 'val'),
+                (th.id, 'status')}
+
+    @property
+    def loops(self):
+        none = lambda cc, fr: NONE
+        sel = z3.Select
+
+        def hv(cc, fr):
+            w = self.w(cc, cc.E)
+            cc.obj(w.pf).f['pos'] = z3.Int(fresh_name('fpos'))
+            to = cc.obj(w.tfile).f
+            to['arr'] = z3.Array(fresh_name('pack_img'), I, I)
+            to['size'] = z3.Int(fresh_name('pack_size'))
+            to['pos'] = z3.Int(fresh_name('pack_pos'))
+            cc.assume(to['size'] >= to['pos'])
+            o = cc.obj(w.index)
+            o.f['dom'] = z3.Array(fresh_name('pidx_dom'), I, B)
+            o.f['val'] = z3.Array(fresh_name('pidx_val'), I, I)
+            st = cc.obj(cc.E['th']).f
+            st['status'] = VStr(codes=[z3.Int(fresh_name('th_status'))])
+            cc.ghost['written'] = z3.Array(fresh_name('written'), I, B)
+            cc.roles.array(cc.ghost['written'], 'pos')
+            cc.ghost['iter_events'] = len(cc.events)
+
+        def ghost(cc, fr):
+            # the record scanned in this iteration was written iff writePackedDataRecord was called
+            w = self.w(cc, cc.E)
+            h = fr.locals.get('h')
+            if not (isinstance(h, VRef) and cc.obj(h).cls == M.DH):
+                raise ContractStale('copyDataRecords: local h')
+            wrote = any(e[0] == 'write-packed' for e in cc.events[cc.ghost.get('iter_events', 0):])
+            hf = cc.obj(h).f
+            plen = hf['plen'].t
+            # position of the record just scanned: pos was advanced by its length
+            here = z3.simplify(fr.locals['pos'].t - 42 - z3.If(plen == 0, 8, plen))
+            cc.ghost['written'] = z3.Store(cc.ghost['written'], here, z3.BoolVal(wrote))
+            cc.ghost['iter_events'] = len(cc.events)
+
+        def inv(cc, fr):
+            w = self.w(cc, cc.E)
+            g = w.gcw
+            lt = w.lt
+            pos0 = cc.E['pos'].t
+            pos, tend = fr.locals['pos'].t, fr.locals['tend'].t
+            copy, new_tpos = fr.locals['copy'], fr.locals['new_tpos']
+            w.R.link(cc, pos)
+            W = cc.ghost['written']
+            cc.ghost['iter_events'] = len(cc.events)
+            return [
+                ('in-the-transaction', tend == pos0 + lt.T.tl(pos0)),
+                ('at-record-or-end', z3.And(pos >= pos0 + lt.T.hdrlen(pos0), pos <= tend, z3.Or(
+                    pos == tend, z3.And(sel(lt.rec, pos), sel(lt.txnOf, pos) == pos0)))),
+                ('written-exactly-the-kept-records-so-far', All(['pos'], lambda p: z3.Implies(
+                    z3.And(sel(lt.rec, p), p >= pos0, p < pos),
+                    sel(W, p) == G.kept(cc, g, w.R.oid(p), p)))),
+                ('header-written-iff-something-was-kept', z3.And(
+                    z3.Or(copy.t == 0, copy.t == 1) if isinstance(copy, VInt) else False,
+                    (copy.t == 1) == (new_tpos.t != 0) if isinstance(new_tpos, VInt) else False)),
+                ('data-file-untouched', z3.And(cc.obj(w.pf).f['size'] == cc.E.old[w.pf.id]['size'],
+                                               cc.obj(w.pf).f['arr'] == w.A)),
+                ('output-position-past-the-file-magic', cc.obj(w.tfile).f['pos'] >= 4),
+            ]
+        return {0: LoopSpec(inv=inv, havoc=hv, ghost_step=ghost,
+                            kinds={'h': none, 'data': none, 's': none})}
+
+    def outcomes(self, c, E):
+        w = self.w(c, E)
+        g = w.gcw
+        lt = w.lt
+        pos0 = E['pos'].t
+        sel = z3.Select
+
+        def post(cc, E, r):
+            if not (isinstance(r, VTuple) and len(r.items) == 2 and all(isinstance(x, VInt) for x in r.items)):
+                return [('returns-two-positions', False)]
+            W = cc.ghost['written']
+            tend = pos0 + lt.T.tl(pos0)
+            return [('returns-the-end-of-the-records', r.items[1].t == tend),
+                    ('written-exactly-the-kept-records', All(['pos'], lambda p: z3.Implies(
+                        z3.And(sel(lt.rec, p), p >= pos0, p < tend),
+                        sel(W, p) == G.kept(cc, g, w.R.oid(p), p))))]
+        return [Outcome('copied', post=post)] + \
+            [Outcome('raises-' + x.split(':')[-1], 'raise', x) for x in FrameOnly.raises]
+
+
 class FetchData(FrameOnly):
+    """fetchDataViaBackpointer reads the INPUT file only (follows back pointers with _loadBackTxn): frame = the
+    input file's position - ASSUMED"""
     func = PK + '.fetchDataViaBackpointer'
+
+    def modifies(self, c, E):
+        w = c.ghost['packer']
+        return {(w.pf.id, 'pos')}
+
+    def havoc(self, c, E, outcome=None):
+        w = c.ghost['packer']
+        c.obj(w.pf).f['pos'] = z3.Int(fresh_name('fpos'))
 
     def ok(self, c, E):
         return [NONE, c.fresh_barr('data')][c.choose([True, True], 'fetched')]
@@ -580,6 +924,6 @@ class Packer(Spec):
         return []
 
 
-SPECS = [CopierCopy, FetchData, GetTxnFromData, CopyToPacktime, CopyOne, CopyRest, Pack]
-VARIANTS = [Packer]
+SPECS = [CopierCopy, ResolveBackpointer, WritePackedDataRecord, CopyDataRecords, FetchData, GetTxnFromData, CopyToPacktime, CopyOne, CopyRest, Pack]
+VARIANTS = [Packer, CopierCopyBody]
 INLINE = [FSP + ':PackCopier.setTxnPos', FSP + ':PackCopier.__init__', PK + '.close']
